@@ -46,6 +46,8 @@ func runC12(c *Ctx) {
 	w := c.W
 	defer func() {
 		ruleDecoderBounds(c, "C12.4")
+		ruleFreeAreaBound(c, "C12.13")
+		ruleWholePageWrite(c, "C12.14")
 		c04FlushOrder(c, "C12.5")
 		ruleFlushLoopComplete(c, "C12.7")
 		ruleSizeWithBytes(c, "C12.9")
